@@ -136,58 +136,98 @@ func (s *dropSink) Info(_ int, msg string, kv ...interface{}) {
 	}
 }
 
-// ---- records: body "g:k", seven attributes a0..a6 = body (five inline, two in the
-// backing slice that Clone must copy) ----
+// ---- records: body "g:k"; the attribute shape (how many attributes, which of them
+// nested) is carried in the severity text so that the exporter side can rebuild what
+// was emitted.  Shapes: 0, 3, 5 (all inline), 7, 9 (the rest in the backing slice that
+// Clone must copy); shapes >= 100 are the same counts with nested slice / map values.
 
-const nAttr = 7
+var shapes = []int{7, 7, 0, 3, 5, 9, 107, 103, 109}
 
-func mkRecord(g, k int) log.Record {
+func attrVal(id string, shape, i int) log.Value {
+	if shape >= 100 {
+		switch i % 3 {
+		case 1:
+			return log.SliceValue(log.StringValue(id), log.Int64Value(int64(i)))
+		case 2:
+			return log.MapValue(log.String("id", id), log.Slice("s", log.StringValue(id), log.BoolValue(true)))
+		}
+	}
+	return log.StringValue(id)
+}
+
+func attrs(id string, shape int) []log.KeyValue {
+	n := shape % 100
+	kvs := make([]log.KeyValue, n)
+	for i := range kvs {
+		kvs[i] = log.KeyValue{Key: "a" + strconv.Itoa(i), Value: attrVal(id, shape, i)}
+	}
+	return kvs
+}
+
+func recID_(g, k int) string { return strconv.Itoa(g) + ":" + strconv.Itoa(k) }
+
+func mkRecord(g, k, shape int) log.Record {
 	var r log.Record
-	id := strconv.Itoa(g) + ":" + strconv.Itoa(k)
+	id := recID_(g, k)
 	r.SetBody(log.StringValue(id))
 	r.SetSeverity(log.SeverityInfo)
-	kvs := make([]log.KeyValue, nAttr)
-	for i := range kvs {
-		kvs[i] = log.String("a"+strconv.Itoa(i), id)
-	}
-	r.AddAttributes(kvs...)
+	r.SetSeverityText(strconv.Itoa(shape))
+	r.AddAttributes(attrs(id, shape)...)
 	return r
+}
+
+// fillRecord prepares a caller-owned sdk record (a clone of a template obtained from a
+// LoggerProvider) for a direct OnEmit call.
+func fillRecord(r *sdklog.Record, g, k, shape int) {
+	id := recID_(g, k)
+	r.SetBody(log.StringValue(id))
+	r.SetSeverity(log.SeverityInfo)
+	r.SetSeverityText(strconv.Itoa(shape))
+	r.SetAttributes(attrs(id, shape)...)
+}
+
+func parseID(id string) (int, int, bool) {
+	if i := strings.IndexByte(id, ':'); i > 0 {
+		a, e1 := strconv.Atoi(id[:i])
+		b, e2 := strconv.Atoi(id[i+1:])
+		if e1 == nil && e2 == nil {
+			return a, b, true
+		}
+	}
+	return 999, 999, false
 }
 
 // identify reads an exported record back: goroutine, sequence number, and 0 if the
 // content is exactly what was emitted (1 otherwise).
 func identify(r *sdklog.Record) recID {
-	id := r.Body().AsString()
-	g, k := 999, 999
-	if i := strings.IndexByte(id, ':'); i > 0 {
-		a, e1 := strconv.Atoi(id[:i])
-		b, e2 := strconv.Atoi(id[i+1:])
-		if e1 == nil && e2 == nil {
-			g, k = a, b
-		}
+	id := ""
+	if r.Body().Kind() == log.KindString {
+		id = r.Body().AsString()
 	}
+	g, k, ok := parseID(id)
 	body := 0
-	if g == 999 || r.AttributesLen() != nAttr {
+	shape, err := strconv.Atoi(r.SeverityText())
+	if !ok || err != nil || r.EventName() != "" || r.Severity() != log.SeverityInfo {
 		body = 1
-	}
-	i := 0
-	r.WalkAttributes(func(kv log.KeyValue) bool {
-		if kv.Key != "a"+strconv.Itoa(i) || kv.Value.AsString() != id {
+	} else {
+		want := attrs(id, shape)
+		if r.AttributesLen() != len(want) || r.DroppedAttributes() != 0 {
 			body = 1
 		}
-		i++
-		return true
-	})
-	if body == 1 && g == 999 {
+		i := 0
+		r.WalkAttributes(func(kv log.KeyValue) bool {
+			if i >= len(want) || kv.Key != want[i].Key || !kv.Value.Equal(want[i].Value) {
+				body = 1
+			}
+			i++
+			return true
+		})
+	}
+	if !ok {
 		// a changed body: recover the identity from an attribute if one survived
 		r.WalkAttributes(func(kv log.KeyValue) bool {
-			s := kv.Value.AsString()
-			if j := strings.IndexByte(s, ':'); j > 0 && g == 999 {
-				a, e1 := strconv.Atoi(s[:j])
-				b, e2 := strconv.Atoi(s[j+1:])
-				if e1 == nil && e2 == nil {
-					g, k = a, b
-				}
+			if kv.Value.Kind() == log.KindString && !ok {
+				g, k, ok = parseID(kv.Value.AsString())
 			}
 			return true
 		})
@@ -195,30 +235,52 @@ func identify(r *sdklog.Record) recID {
 	return recID{g, k, body}
 }
 
-// mutator is registered AFTER the batch processor: it edits the record the batch
-// processor was handed (what "later changes to the caller's record" means for Emit).
-type mutator struct{ how atomic.Int32 }
-
-func (m *mutator) OnEmit(_ context.Context, r *sdklog.Record) error {
-	switch m.how.Load() {
+// mutate edits a record after the batch processor was handed it.
+func mutate(how int, r *sdklog.Record) {
+	switch how {
 	case 1:
 		r.SetBody(log.StringValue("MUT"))
 	case 2:
-		r.AddAttributes(log.String("a6", "MUT"), log.String("a5", "MUT")) // overwrites in place
+		r.AddAttributes(log.String("a6", "MUT"), log.String("a5", "MUT")) // overwrites in place when present
 	case 3:
 		r.SetAttributes(log.String("z", "MUT"))
 	case 4:
 		r.SetBody(log.StringValue("MUT"))
 		r.AddAttributes(log.String("a5", "MUT"), log.String("new", "MUT"))
 		r.AddAttributes(log.String("a0", "MUT"))
+	case 5:
+		r.SetSeverityText("MUT")
+		r.SetEventName("MUT")
+		r.AddAttributes(log.Slice("a7", log.StringValue("MUT")), log.Map("a8", log.String("id", "MUT")))
+	case 6:
+		r.AddAttributes(log.Slice("a1", log.StringValue("MUT")), log.Map("a2", log.String("id", "MUT")), log.String("a6", "MUT"))
+		r.SetSeverity(log.SeverityError)
 	}
+}
+
+const nMut = 6
+
+// mutator is registered AFTER the batch processor: it edits the record the batch
+// processor was handed (what "later changes to the caller's record" means for Emit).
+type mutator struct{ how atomic.Int32 }
+
+func (m *mutator) OnEmit(_ context.Context, r *sdklog.Record) error {
+	mutate(int(m.how.Load()), r)
 	return nil
 }
 func (m *mutator) Shutdown(context.Context) error   { return nil }
 func (m *mutator) ForceFlush(context.Context) error { return nil }
 
+// capture keeps a clone of the record it sees: the template for direct OnEmit calls.
+type capture struct{ rec sdklog.Record }
+
+func (c *capture) OnEmit(_ context.Context, r *sdklog.Record) error { c.rec = r.Clone(); return nil }
+func (c *capture) Shutdown(context.Context) error                    { return nil }
+func (c *capture) ForceFlush(context.Context) error                  { return nil }
+
 var replayProg = flag.String("c06-prog", "", "replay one deterministic program \"q,b,s: ops\" -c06-n times and print the histories")
 var replayN = flag.Int("c06-n", 1, "repetitions for -c06-prog")
+var childKind = flag.String("c06-child", "", "internal: run one scenario that may kill the process")
 var extraSeed = flag.Int("c06-probe", 0, "run the order-hazard reproduction attempt this many times and exit")
 
 // ---- gate exporter ----
@@ -361,46 +423,173 @@ func (c *sctx) cancel() { c.mu.Lock(); c.cancelLocked(); c.cond.Broadcast(); c.m
 
 // ---- rig ----
 
+// cfg is the EFFECTIVE configuration (what the documentation says the processor uses):
+// values below one fall back to the defaults, the batch size is clamped to the queue size.
 type cfg struct{ qcap, maxb, bufsz int }
+
+const (
+	dfltQ = 2048
+	dfltB = 512
+	dfltS = 1
+)
+
+// optSpec is how the configuration is SPELLED: nil = option not given.
+type optSpec struct {
+	q, b, s           *int
+	interval, timeout *time.Duration
+}
+
+func ip(v int) *int                     { return &v }
+func dp(v time.Duration) *time.Duration { return &v }
+
+func (o optSpec) effective() cfg {
+	c := cfg{dfltQ, dfltB, dfltS}
+	if o.q != nil && *o.q >= 1 {
+		c.qcap = *o.q
+	}
+	if o.b != nil && *o.b >= 1 {
+		c.maxb = *o.b
+	}
+	c.maxb = min(c.maxb, c.qcap)
+	if o.s != nil && *o.s >= 1 {
+		c.bufsz = *o.s
+	}
+	return c
+}
+
+func (o optSpec) String() string {
+	f := func(p *int) string {
+		if p == nil {
+			return "-"
+		}
+		return strconv.Itoa(*p)
+	}
+	g := func(p *time.Duration) string {
+		if p == nil {
+			return "-"
+		}
+		return p.String()
+	}
+	return "q=" + f(o.q) + " b=" + f(o.b) + " s=" + f(o.s) + " interval=" + g(o.interval) + " timeout=" + g(o.timeout)
+}
+
+// spell chooses a spelling of the effective configuration c (plain; batch size left to
+// the processor's clamp; defaults by omission or by zero / negative values).
+func spell(r *vgen.Rand, c cfg, interval, timeout time.Duration) optSpec {
+	o := optSpec{q: ip(c.qcap), b: ip(c.maxb), s: ip(c.bufsz), interval: dp(interval), timeout: dp(timeout)}
+	bad := []int{0, -1, -1 << 31}
+	if c.maxb == c.qcap && r.Chance(1, 2) {
+		o.b = ip(c.qcap + []int{1, 7, 3*c.qcap + 3}[r.Intn(3)]) // clamped by the processor (2^30: child process, runMisc)
+	}
+	if c.maxb == dfltB && c.qcap >= dfltB {
+		o.b = []*int{nil, ip(0), ip(-5)}[r.Intn(3)]
+	}
+	if c.qcap == dfltQ {
+		o.q = []*int{nil, ip(0), ip(-1)}[r.Intn(3)]
+	}
+	if c.bufsz == dfltS && r.Chance(1, 3) {
+		o.s = []*int{nil, ip(bad[r.Intn(3)])}[r.Intn(2)]
+	}
+	if timeout == 30*time.Second {
+		o.timeout = []*time.Duration{nil, dp(0), dp(-time.Second)}[r.Intn(3)]
+	}
+	if interval == time.Second {
+		o.interval = []*time.Duration{nil, dp(0), dp(-time.Hour)}[r.Intn(3)]
+	}
+	return o
+}
 
 type rig struct {
 	rec    *recorder
 	g      *gate
 	bp     *sdklog.BatchProcessor
+	lp     *sdklog.LoggerProvider
 	mut    *mutator
 	logger log.Logger
+	tmpl   sdklog.Record
+	// how calls are issued
+	viaProvider bool // ForceFlush / Shutdown through the LoggerProvider
+	direct      int  // 0: Logger.Emit, 1: processor.OnEmit with a caller-owned record, 2: alternate
+	nEmit       int
 }
 
 func newRig(c cfg, interval, timeout time.Duration) *rig {
-	rec := &recorder{}
-	g := newGate(rec)
-	bp := sdklog.NewBatchProcessor(g,
-		sdklog.WithMaxQueueSize(c.qcap), sdklog.WithExportMaxBatchSize(c.maxb),
-		sdklog.WithExportBufferSize(c.bufsz), sdklog.WithExportInterval(interval),
-		sdklog.WithExportTimeout(timeout))
-	mut := &mutator{}
-	lp := sdklog.NewLoggerProvider(sdklog.WithProcessor(bp), sdklog.WithProcessor(mut))
-	return &rig{rec: rec, g: g, bp: bp, mut: mut, logger: lp.Logger("c06")}
+	return newRigSpec(optSpec{q: ip(c.qcap), b: ip(c.maxb), s: ip(c.bufsz), interval: dp(interval), timeout: dp(timeout)})
 }
 
-func (r *rig) emit(t, g, k int) {
-	lr := mkRecord(g, k)
+func newRigSpec(o optSpec) *rig {
+	rec := &recorder{}
+	g := newGate(rec)
+	var opts []sdklog.BatchProcessorOption
+	if o.q != nil {
+		opts = append(opts, sdklog.WithMaxQueueSize(*o.q))
+	}
+	if o.b != nil {
+		opts = append(opts, sdklog.WithExportMaxBatchSize(*o.b))
+	}
+	if o.s != nil {
+		opts = append(opts, sdklog.WithExportBufferSize(*o.s))
+	}
+	if o.interval != nil {
+		opts = append(opts, sdklog.WithExportInterval(*o.interval))
+	}
+	if o.timeout != nil {
+		opts = append(opts, sdklog.WithExportTimeout(*o.timeout))
+	}
+	bp := sdklog.NewBatchProcessor(g, opts...)
+	mut := &mutator{}
+	lp := sdklog.NewLoggerProvider(sdklog.WithProcessor(bp), sdklog.WithProcessor(mut))
+	capt := &capture{}
+	sdklog.NewLoggerProvider(sdklog.WithProcessor(capt)).Logger("c06").Emit(context.Background(), log.Record{})
+	return &rig{rec: rec, g: g, bp: bp, lp: lp, mut: mut, logger: lp.Logger("c06"), tmpl: capt.rec}
+}
+
+func (r *rig) emit(t, g, k int) { r.emitShape(t, g, k, 7) }
+
+func (r *rig) emitShape(t, g, k, shape int) {
 	id := recID{g, k, 0}
+	direct := r.direct == 1 || (r.direct == 2 && (g+k)%2 == 1)
+	if !direct {
+		lr := mkRecord(g, k, shape)
+		r.rec.add(event{kind: evCall, t: t, op: opEmit, r: id})
+		// what a bridge does: ask first (a batch processor never filters)
+		if !r.logger.Enabled(context.Background(), log.EnabledParameters{Severity: log.SeverityInfo}) {
+			r.rec.add(event{kind: evBegin, batch: []recID{{998, 998, 1}}}) // makes the history fail
+		}
+		r.logger.Emit(context.Background(), lr)
+		r.rec.add(event{kind: evRet, t: t, op: opEmit, r: id, ret: rNil})
+		return
+	}
+	sr := r.tmpl.Clone()
+	fillRecord(&sr, g, k, shape)
 	r.rec.add(event{kind: evCall, t: t, op: opEmit, r: id})
-	r.logger.Emit(context.Background(), lr)
-	r.rec.add(event{kind: evRet, t: t, op: opEmit, r: id, ret: rNil})
+	err := r.bp.OnEmit(context.Background(), &sr)
+	r.rec.add(event{kind: evRet, t: t, op: opEmit, r: id, ret: classify(err)})
+	mutate(int(r.mut.how.Load()), &sr) // the caller goes on using ITS record
 }
 
 func (r *rig) flush(t int, ctx context.Context) int {
 	r.rec.add(event{kind: evCall, t: t, op: opFlush})
-	rv := classify(r.bp.ForceFlush(ctx))
+	var err error
+	if r.viaProvider {
+		err = r.lp.ForceFlush(ctx)
+	} else {
+		err = r.bp.ForceFlush(ctx)
+	}
+	rv := classify(err)
 	r.rec.add(event{kind: evRet, t: t, op: opFlush, ret: rv})
 	return rv
 }
 
 func (r *rig) shutdown(t int, ctx context.Context) int {
 	r.rec.add(event{kind: evCall, t: t, op: opShutdown})
-	rv := classify(r.bp.Shutdown(ctx))
+	var err error
+	if r.viaProvider {
+		err = r.lp.Shutdown(ctx)
+	} else {
+		err = r.bp.Shutdown(ctx)
+	}
+	rv := classify(err)
 	r.rec.add(event{kind: evRet, t: t, op: opShutdown, ret: rv})
 	return rv
 }
@@ -461,6 +650,10 @@ func main() {
 	o := vgen.ParseFlags()
 	otel.SetLogger(logr.New(sink))
 	otel.SetErrorHandler(otel.ErrorHandlerFunc(func(error) {}))
+	if *childKind != "" {
+		child(*childKind)
+		return
+	}
 	if *replayProg != "" {
 		c, p := parseProg(*replayProg)
 		seen := map[string]int{}
@@ -480,7 +673,7 @@ func main() {
 	r := vgen.NewRand(o.Seed)
 	w := vgen.NewWriter(o.Out, "C06.Spec C06.Model C06.Corr", "case", 96)
 	w.Rule = "deterministic fragment: op lists (Emit, Mutate, ForceFlush/Shutdown with background and scripted contexts, gate exporter ok/err/block/release) over queue 1..8, batch 1..8, buffer 1..3, " +
-		"run on the real processor by one driver goroutine and compared with the model under the eager schedule (exporter's view: batches, outcomes, Shutdown call; returns of every call); " +
+		"options spelled plainly / left to the clamp / omitted / zero / negative (defaults), Emit through Logger.Emit or processor.OnEmit with a caller-owned record, ForceFlush/Shutdown on the processor or through the LoggerProvider, records with 0-9 attributes incl. nested values, one all-defaults program with a full 512 batch per ~60; run on the real processor by one driver goroutine and compared with the model under the eager schedule (exporter's view: batches, outcomes, Shutdown call; returns of every call); " +
 		"free-running fragment: 2-16 emitters (records mutated right after Emit) x flushers x shutdown with random latency/failures/timeouts, recorded history judged by spec_ok; " +
 		"non-trivial = (deterministic) the program exports something and contains a block, an overflow or a shutdown, (free-running) at least one export and one ForceFlush/Shutdown returned nil"
 	nDet := o.Count(260, 5000)
@@ -489,6 +682,7 @@ func main() {
 	runDet(w, r.Fork(), nDet)
 	t1 := time.Now()
 	runFree(w, r.Fork(), nFree)
+	runMisc(w, o.Out)
 	t2 := time.Now()
 	w.Extra["det_s"] = t1.Sub(t0).Seconds()
 	w.Extra["free_s"] = t2.Sub(t1).Seconds()
